@@ -20,6 +20,13 @@ NA = {
 }
 
 CHECKS = {
+ "C18": dict(
+   level="exploration",
+   text="Seeded search over (a) repeated fresh-process runs of one invocation (different GOMAXPROCS, sandbox paths, PIDs), (b) histories of 10-40 evaluations sharing parser, parsed trees and pooled decoder/encoder instances in one process, each step compared with the same job alone in a fresh process, (c) interleavings of 2-4 concurrent evaluations under a scheduler that keeps exactly one goroutine runnable and takes every hand-off decision (operator dispatch, lexer token, parse phase, decode/print iteration, every Read/Write) from the scenario's choice list, each task compared with its solo result, and (d) the same task pools free-running in a -race build (labelled: not deterministic simulation). Sampling of histories and schedules: evidence, not proof.",
+   ref="DESIGN.md §5.4",
+   note="Trusted: pre-emption happens only at yield points (a hazard between two yields is left to the race detector); Go-runtime randomness (map order, temp names) is only sampled by repetition; time/random/env operators are excluded as the property says.",
+   technique="deterministic in-process scheduler (one runnable goroutine, seeded hand-offs at yield hooks) + history replay against solo reference processes + repeated-process determinism + Go race detector on free-running task pools",
+   engine="libsim + procsim"),
  "C11": dict(
    level="exploration",
    text="Seeded runs of the real binary on documents of all ten input formats that are valid or damaged by 1-3 storage faults (truncation, bit flip, zeroed/duplicated/stale/inserted block), delivered under seeded short-read schedules with optional read EIO / write errors, with grammar-generated, probe and damaged (--from-file) expressions and every output format; oracles: exit in {0,1}, no panic/fatal/goroutine dump/foreign signal, termination within a hook-counted step budget (wall-clock backstop for third-party parsers), exit 1 implies a message. The healthy-input x arbitrary-expression clause is only reached by the fault-free configuration and is not claimed as decided. Sampling: evidence, not proof.",
